@@ -187,7 +187,8 @@ def run_api(spec, rec: Recorder):
     mon.KDFS.install()
     rng = common.rng_for(ID, spec)
     h = spec["hash"]
-    root = rng.randbytes(64)
+    root = rng.randbytes(rng.choice([64, 64, 16, 32, 63, 65, 128, 256, 1]))  # "forall root keys": not only 64-byte ones
+    rec.seen("root_key_lengths", len(root))
     rkid = uuid.UUID(int=rng.getrandbits(128))
     rk = cms.RootKey(root, h)
     positions = [(i, j) for i in range(32) for j in range(32)]
@@ -240,6 +241,8 @@ def run_apidc(spec, rec: Recorder):
         h = common.HASHES[i % 4]
         rkid = uuid.UUID(int=rng.getrandbits(128))
         rk = online.root_key(rng, h, "DH")
+        if i % 5 == 4:
+            rk = rk._replace(key=rng.randbytes(rng.choice([16, 32, 63, 65, 128, 256])))
         l0 = rng.choice([361, 0, 2**31 - 1, rng.randrange(1000)])
         pick = lambda: rng.choice(edge) if rng.random() < 0.4 else rng.randrange(32)  # noqa: E731
         pp = (pick(), pick())
@@ -261,6 +264,15 @@ def run_apidc(spec, rec: Recorder):
             with mem.installed():
                 mon.KDFS.n, mon.KDFS.limit = 0, 200
                 r1 = dpapi_ng.ncrypt_unprotect_secret(b1, **kw)
+                if i % 4 == 1 and l0 < 2**31 - 1:
+                    # the cached seed material is used for protect calls in its own interval in between: it must stay usable
+                    ft = (l0 * 1024 + pp[0] * 32 + pp[1]) * 360000000000 + 4242
+                    with mon.CLOCK.at_ns(mon.filetime_to_ns(ft)):
+                        for _ in range(2):
+                            made = dpapi_ng.ncrypt_protect_secret(b"between", sid, root_key_identifier=rkid, **kw)
+                    if cms.reference_unprotect(made, {rkid: rk}) != b"between":
+                        rec.violation("derived-key-mismatch", f"protect from DC-obtained seed keys at {pp}: the reference implementation cannot decrypt the blob", wit)
+                    rec.count("apidc_protect_between")
                 before = core.getkey_count
                 mon.KDFS.n, mon.KDFS.limit = 0, 200
                 r2 = dpapi_ng.ncrypt_unprotect_secret(b2, **kw)
